@@ -355,6 +355,62 @@ func gen(tier string, rng *h.Rng, emit func(string)) {
 		emit("gtdec " + h.Hex(rng.Bytes(rng.Intn(800))))
 	}
 
+	// ---- 4b. one receiver reused: special encodings into every prior state, sequences [P, identity, Q] ----
+	{
+		gtOne, _ := suite.GT().Point().Null().MarshalBinary()
+		gtBase, _ := suite.GT().Point().Base().MarshalBinary()
+		gtP, _ := suite.Pair(elem("g1", rng.Big(r)), elem("g2", rng.Big(r))).MarshalBinary()
+		type grp struct {
+			name     string
+			special  [][]byte
+			valid    [][]byte
+			bad      [][]byte
+		}
+		g1P, g1Q := bnref.Enc1(randCurvePoint(rng)), bnref.Enc1(bnref.G1Gen())
+		g2P, g2Q := bnref.Enc2(bnref.Mul2(rng.Big(r), bnref.G2Gen())), bnref.Enc2(bnref.G2Gen())
+		groups := []grp{
+			{"g1", [][]byte{make([]byte, 64), make([]byte, 70)}, [][]byte{g1P, g1Q},
+				[][]byte{cat(g1P[:32], be32(big.NewInt(5))), g1P[:40], cat(be32(bnref.P), g1P[32:])}},
+			{"g2", [][]byte{{0}, cat([]byte{0}, rng.Bytes(7)), cat([]byte{0}, rng.Bytes(128)), cat([]byte{1}, make([]byte, 128))}, [][]byte{g2P, g2Q},
+				[][]byte{cat(g2P[:97], be32(big.NewInt(5))), g2P[:100], {2}, bnref.Enc2(randTwistPoint(rng))}},
+			{"gt", [][]byte{gtOne, make([]byte, 384)}, [][]byte{gtP, gtBase},
+				[][]byte{gtP[:383], cat(be32(bnref.P), gtP[32:])}},
+		}
+		for _, g := range groups {
+			k := rng.Big(r)
+			prefixes := []string{"", "n", "b", "m" + k.String(), "m0"}
+			for _, v := range g.valid {
+				prefixes = append(prefixes, "d"+h.Hex(v), "f"+h.Hex(v))
+			}
+			for _, bd := range g.bad {
+				prefixes = append(prefixes, "d"+h.Hex(bd), "m"+k.String()+",d"+h.Hex(bd), "f"+h.Hex(bd))
+			}
+			join := func(a, b string) string {
+				if a == "" {
+					return b
+				}
+				return a + "," + b
+			}
+			for _, sp := range g.special {
+				for _, pre := range prefixes {
+					emit(fmt.Sprintf("seq %s %s", g.name, join(pre, "d"+h.Hex(sp))))
+					emit(fmt.Sprintf("seq %s %s", g.name, join(pre, "f"+h.Hex(sp))))
+				}
+				// [P, identity, Q] through one receiver, both APIs, and identity twice
+				P, Q := g.valid[0], g.valid[1]
+				for _, api := range []string{"d", "f"} {
+					emit(fmt.Sprintf("seq %s %s%s,%s%s,%s%s", g.name, api, h.Hex(P), api, h.Hex(sp), api, h.Hex(Q)))
+					emit(fmt.Sprintf("seq %s %s%s,%s%s,%s%s,%s%s", g.name, api, h.Hex(Q), api, h.Hex(sp), api, h.Hex(sp), api, h.Hex(P)))
+				}
+				emit(fmt.Sprintf("seq %s d%s,f%s,d%s,f%s,d%s", g.name, h.Hex(P), h.Hex(sp), h.Hex(g.bad[0]), h.Hex(sp), h.Hex(Q)))
+			}
+			// non-identity encodings into every prior state as well
+			for _, pre := range prefixes {
+				emit(fmt.Sprintf("seq %s %s", g.name, join(pre, "d"+h.Hex(g.valid[0]))))
+			}
+		}
+	}
+
 	// ---- 5. scalars -------------------------------------------------------------------------------
 	for _, v := range append(special, new(big.Int).Sub(two256, big.NewInt(2)), new(big.Int).Add(r, r)) {
 		emit("scdec " + h.Hex(be32(v)))
